@@ -132,6 +132,7 @@ func (s *BadSmellListener) EnterInterfaceMethodDeclaration(ctx *InterfaceMethodD
 				paramValue := paramContext.VariableDeclaratorId().(*VariableDeclaratorIdContext).Identifier().GetText()
 				methodParams = append(methodParams, core_domain.CodeProperty{TypeValue: paramType, TypeType: paramValue})
 			}
+			methodParams = appendVarargsParameter(methodParams, allFormal)
 		}
 	}
 
@@ -213,6 +214,7 @@ func (s *BadSmellListener) EnterMethodDeclaration(ctx *MethodDeclarationContext)
 
 				localVars[paramValue] = paramType
 			}
+			methodParams = appendVarargsParameter(methodParams, allFormal)
 		}
 	}
 
@@ -243,6 +245,18 @@ func (s *BadSmellListener) EnterMethodDeclaration(ctx *MethodDeclarationContext)
 		FunctionBS:   methodBadSmellInfo,
 	}
 	methods = append(methods, *method)
+}
+
+// appendVarargsParameter adds the variable-arity parameter (`String... rest`), which the
+// grammar keeps apart from the other formal parameters of the list.
+func appendVarargsParameter(methodParams []core_domain.CodeProperty, allFormal *FormalParameterListContext) []core_domain.CodeProperty {
+	if allFormal.LastFormalParameter() == nil {
+		return methodParams
+	}
+	last := allFormal.LastFormalParameter().(*LastFormalParameterContext)
+	paramType := last.TypeType().GetText() + "..."
+	paramValue := last.VariableDeclaratorId().(*VariableDeclaratorIdContext).Identifier().GetText()
+	return append(methodParams, core_domain.CodeProperty{TypeValue: paramType, TypeType: paramValue})
 }
 
 func getModifier(ctx *MethodDeclarationContext) string {
